@@ -54,6 +54,7 @@ pub struct GState {
     pub att: Option<MarkAtt>,
     pub curs: Option<CLink>, // link from this glyph (first) to the next cursive glyph (second)
     pub nojudge: bool,       // something outside the unambiguous core touched this glyph
+    pub adjusted: bool,      // some value record with a non-zero field was applied to this glyph
 }
 
 #[derive(Clone, Debug, Default, PartialEq)]
@@ -415,6 +416,7 @@ impl<'a> Model<'a> {
         }
         if v != Val::default() {
             self.out.applied += 1;
+            self.out.g[i].adjusted = true;
         }
     }
 
@@ -909,7 +911,7 @@ pub fn finalize(o: &mut Outcome) {
         }
     }
     for i in 0..n {
-        if in_link[i] && (o.g[i].dx != 0 || o.g[i].dy != 0 || o.g[i].xadv != 0 || o.g[i].att.is_some()) {
+        if in_link[i] && (o.g[i].adjusted || o.g[i].xadv != 0 || o.g[i].att.is_some()) {
             o.amb.insert("cursive+adjustment-on-one-glyph");
             o.g[i].nojudge = true;
         }
